@@ -163,6 +163,14 @@ func checkC19(c *Ctx) (int, error) {
 			b := boundaries(rng, set, u, total)
 			cs := &WCase{ID: fmt.Sprintf("C19-%d-%d", rep, i), Set: set, Tag: settingTag(set), Data: d}
 			cs.Ops = opsFor(b, total, p.A, p.F, rng, false)
+			if i%2 == 1 {
+				// a reused Writer: an earlier stream (abandoned or closed), then Reset
+				pre := []Op{{Op: "W", N: pick(rng, []int{1, 300, 9000})}}
+				if i%4 == 3 {
+					pre = append(pre, Op{Op: "C"})
+				}
+				cs.Ops = append(append(pre, Op{Op: "R"}), cs.Ops...)
+			}
 			cases = append(cases, cs)
 			c.ev.nontrivial(histString(cs.Ops) + "|" + cs.Tag + fmt.Sprint(per))
 		}
